@@ -5440,3 +5440,25 @@ M('C05', 'verify-verdict-cache-by-signature-value', PGP, "                if iss
 M('C05', 'verify-verdict-ok-without-hash-for-own-key', PGP, "                if issues and issues.causes_signature_verify_to_fail:\n                    sigv.add_sigsubj(sig, self, subj, issues)\n                else:\n",
   "                if issues and issues.causes_signature_verify_to_fail:\n                    sigv.add_sigsubj(sig, self, subj, issues)\n                elif subj is self and sig.signer == self.fingerprint.keyid and self._self_verified:\n                    sigv.add_sigsubj(sig, self, subj, SecurityIssues.OK)\n                else:\n", 'C05.4')
 T('C05', 'twin-verify-hashdata-temp', PGP, "                    verified = self._key.verify(sig.hashdata(subj), sig.__sig__, getattr(hashes, sig.hash_algorithm.name)())", "                    tbs = sig.hashdata(subj)\n                    hash_object = getattr(hashes, sig.hash_algorithm.name)()\n                    verified = self._key.verify(tbs, sig.__sig__, hash_object)")
+
+# =============================================================================================== wave 7: twin C17-ref20
+# a closure that RETURNS the generator expression is the generator that loops and yields (canon); a verification loop over a
+# pair list whose own summary carries a filter keeps the whole collection text (interp _split_filter)
+for _p in ('C17', 'C01', 'C02', 'C11'):
+    TW(_p, 'twin-C17-ref20', 'C17-ref20')
+_FS_LOOP = "            for sig in sigs:\n                if sig.signer in _ids:\n                    yield sig\n"
+_FS_RET = "            return (sig for sig in sigs if sig.signer in _ids)\n"
+_MSG_LOOP = "                for sig in _filter_sigs(subject.signatures):\n                    sspairs.append((sig, subject._signed_data))\n"
+_MSG_INLINE = "                _mine = {self.fingerprint.keyid} | set(self.subkeys)\n                for sig in (s for s in subject.signatures if s.signer in _mine):\n                    sspairs.append((sig, subject.%s))\n"
+for _p in ('C17', 'C01', 'C02', 'C11'):
+    T(_p, 'twin-verify-message-inline-genexp', PGP, _MSG_LOOP, _MSG_INLINE % '_signed_data')
+M('C01', 'filter-returns-genexp-message-raw', PGP, _FS_LOOP, _FS_RET, 'C01.7',
+  more=[(PGP, "                    sspairs.append((sig, subject._signed_data))\n", "                    sspairs.append((sig, subject.message))\n")])
+M('C02', 'filter-returns-genexp-message-raw', PGP, _FS_LOOP, _FS_RET, 'C02.7',
+  more=[(PGP, "                    sspairs.append((sig, subject._signed_data))\n", "                    sspairs.append((sig, subject.message))\n")])
+M('C11', 'filter-returns-genexp-message-raw', PGP, _FS_LOOP, _FS_RET, 'C11.4',
+  more=[(PGP, "                    sspairs.append((sig, subject._signed_data))\n", "                    sspairs.append((sig, subject.message))\n")])
+M('C11', 'verify-message-inline-genexp-raw', PGP, _MSG_LOOP, _MSG_INLINE % 'message', 'C11.4')
+M('C02', 'verify-message-inline-genexp-raw', PGP, _MSG_LOOP, _MSG_INLINE % 'message', 'C02.7')
+M('C17', 'is-bad-helper-negated', TY, "        yield from (\n            sigsub\n            for sigsub in self._subjects\n            if sigsub.issues and sigsub.issues.causes_signature_verify_to_fail\n        )\n",
+  "        yield from (sigsub for sigsub in self._subjects if self._is_bad(sigsub))\n\n    @staticmethod\n    def _is_bad(sigsub):\n        return sigsub.issues and not sigsub.issues.causes_signature_verify_to_fail\n", 'C17.2')
